@@ -19,6 +19,15 @@ def build(tier, seed):
     I.append(snd("c09_default_first_block", 1, 2, 0, 3, oracle=uo, fs=True, b0=(1, 1)))
     # every acknowledged timeout must be usable: interval = any u64 >= 1 seconds (what parse_options lets through)
     I.append(snd("c09_use_any_timeout", 1, 2, 0, 3, oracle=omask("TRIGGER", "NOABORT"), tmo=99999, kinds=K_ACK | K_TIMEOUT))
+    # option names: compared case-insensitively, unknown options (with any value) ignored - concrete requests through the real decoder
+    import c10
+    for tag, data in [("upper", b"\x00\x01f\x00o\x00BLKSIZE\x008\x00"), ("mixed", b"\x00\x02f\x00o\x00TiMeOuT\x003\x00wINDOWSIZe\x004\x00"),
+                      ("unk_text", b"\x00\x01f\x00o\x00foo\x00bar\x00blksize\x008\x00"), ("unk_empty", b"\x00\x02f\x00o\x00multicast\x00\x00tsize\x000\x00"),
+                      ("unk_only", b"\x00\x01f\x00o\x00rollover\x00x\x00"), ("near_miss", b"\x00\x01f\x00o\x00blksizes\x009\x00")]:
+        i_ = c10.tmpl("c09name_" + tag, data, [])
+        i_.name = i_.name.replace("c10_t_", "c09_t_")
+        i_.invocation = i_.invocation.replace("c10_t_", "c09_t_")
+        I.append(i_)
     I += c18.remove_equiv("quick")
     return Check("C09", tier, I, seed,
                  functions=["server::parse_options", "server::accept_request::<OptSock>", "RequestType", "WorkerOptions"],
